@@ -11,6 +11,9 @@ Decides for every `MetaStore::save_hard_state` / `load_hard_state` impl:
  (c) observation only (not armed): engines that save through a database `put` rely on that
      database's WAL; without sync write options this survives a process crash (which is all the property
      promises after save returns) but not a power loss.
+ (d) every Ok path of a save_hard_state impl passes the write into the store (no `unchanged, skip` shortcut: the cached copy is
+     updated before the write);  (e) the database-backed stores keep RocksDB's default of writing the WAL on every put
+     (`set_manual_wal_flush(true)` nowhere, or a flush_wal after the put).
 Necessary conditions, not the whole crash behaviour."""
 from .common import *
 from .helpers_r2 import *
@@ -145,3 +148,76 @@ def run(ctx):
                               "the result of the decode call is never tested (no Err/`?` branch found)", loc(b, di), wit and bpath(b, wit))
     ctx.floor("C21-a", n_trunc, 1, "truncating file opens reachable from save_hard_state")
     ctx.floor("C21-b", n_dec, 3, "decode calls in MetaStore impl types (File load_from_file + 2x load_hard_state)")
+
+
+# ---------------------------------------------------------------------------------------------- C21-d / C21-e
+_run_abc21 = run
+
+
+def run(ctx):
+    _run_abc21(ctx)
+    save_reaches_the_store_on_every_ok_path(ctx)
+    database_wal_leaves_the_process(ctx)
+
+
+def save_reaches_the_store_on_every_ok_path(ctx):
+    """C21-d `Once saving has returned, the new value survives a process crash`: every path of a `MetaStore::save_hard_state` impl
+    that returns Ok passes the call that hands the bytes to the store (the file write / rename of the File store, the database
+    put of the RocksDB store).  A shortcut such as `if cached == new { return Ok(()) }` is not equivalent: the in-memory copy is
+    updated BEFORE the store write, so after a failed write the retry finds cached == new and reports Ok with nothing written."""
+    F = ctx.F
+    impls = trait_impls(F, "d_engine_core::storage::storage_engine::MetaStore::save_hard_state")
+    ctx.floor("C21-d", len(impls), 2, "impls of MetaStore::save_hard_state")
+    for root in impls:
+        if is_test_id(root.id) or "mock" in root.id.lower():
+            continue
+        b = F.main_body(root)
+        writes = [bi for (bi, t) in b.calls() if F.call_reaches(t, lambda k: re.search(
+            r"(fs::(\w+::)?(rename|write)|File::(create|write_all|sync_all|sync_data)|OpenOptions::open|rust_rocksdb::.*::(put_cf|put|write|write_opt|write_wbwi))$", strip_generics(k)) is not None, 4)]
+        errs = [x for x, tt in b.calls() if "from_residual" in (callee_key(tt) or "")]
+        errs += [bi for bi, blk in enumerate(b.blocks) for st in blk["st"]
+                 if st.get("rv", {}).get("k") == "agg" and st["rv"].get("v") == "Err" and strip_generics(st["rv"].get("adt") or "").endswith("result::Result")]
+        wit = must_pass(b, 0, [], writes + errs, treat_exit_as_goal=True) if writes else [0]
+        ctx.check("C21-d", "%s#every-Ok-path-writes-the-store" % fkey(root), bool(writes) and wit is None,
+                  "save_hard_state cannot return Ok without handing the new term/vote to the store",
+                  "save_hard_state can return Ok on a path that never writes the store (e.g. `unchanged since the last save`): the in-memory copy is updated before the write, so "
+                  "after a write that FAILED the retry of the same value is answered Ok with nothing on disk. History: save A ok; save B -> Err (I/O); retry save B -> Ok; crash; "
+                  "restart loads A (the vote for B's term is forgotten)", "%s:%s" % (root.file, root.line), wit and writes and bpath(b, wit))
+
+
+def database_wal_leaves_the_process(ctx):
+    """C21-e the RocksDB stores rely on `put` reaching at least the OS (the database's WAL write) before it returns - that is what
+    makes a saved term/vote survive a PROCESS crash without an explicit sync.  `Options::set_manual_wal_flush(true)` breaks exactly
+    that: records stay in a user-space buffer until flush_wal() is called.  Rule: no `set_manual_wal_flush` with a value other
+    than the constant false anywhere in the workspace - unless every `save_hard_state` impl that writes through the database
+    calls `flush_wal` after its put on every Ok path."""
+    F = ctx.F
+    sites = []
+    for bid, b in F.bodies.items():
+        if b.crate not in ("d_engine_core", "d_engine_server") or re.search(r"(_test|/tests?/|test_utils|mock)", b.file or ""):
+            continue
+        for (bi, t) in calls_matching(b, r"Options::set_manual_wal_flush$"):
+            v = Slice(F, b).operand(t["args"][1]) if len(t["args"]) > 1 else None
+            off = v is not None and v.consts() in (["false"], ["0"]) and not any(x[0] in ("call", "field", "param") for x in v.sources)
+            sites.append((b, bi, off))
+    opts = [1 for bid, b in F.bodies.items() if b.crate == "d_engine_server" and calls_matching(b, r"rust_rocksdb::.*Options::(set_\w+|create_if_missing)$")]
+    ctx.floor("C21-e", len(opts), 1, "functions that configure RocksDB Options (positive control for the disallowed setter)")
+    manual = [(b, bi) for (b, bi, off) in sites if not off]
+    if not manual:
+        ctx.ok("C21-e", "rocksdb::Options#wal-written-on-put", "no Options::set_manual_wal_flush(true): a database put reaches the OS before it returns (%d option-configuring functions examined)" % len(opts))
+        return
+    ok_all = True
+    for root in trait_impls(F, "d_engine_core::storage::storage_engine::MetaStore::save_hard_state"):
+        b = F.main_body(root)
+        puts = [bi for (bi, t) in b.calls() if F.call_reaches(t, lambda k: re.search(r"rust_rocksdb::.*::(put_cf|put|write|write_opt)$", strip_generics(k)) is not None, 3)]
+        if not puts:
+            continue
+        fl = [bi for (bi, t) in b.calls() if F.call_reaches(t, lambda k: re.search(r"rust_rocksdb::.*::flush_wal$", strip_generics(k)) is not None, 3)]
+        errs = [x for x, tt in b.calls() if "from_residual" in (callee_key(tt) or "")]
+        ok = all(must_pass(b, p_, [], fl + errs, treat_exit_as_goal=True) is None for p_ in puts) and bool(fl)
+        ok_all = ok_all and ok
+    (b, bi) = manual[0]
+    ctx.check("C21-e", "rocksdb::Options#wal-written-on-put", ok_all,
+              "manual WAL flush is on, but every database-backed save_hard_state calls flush_wal after its put",
+              "Options::set_manual_wal_flush(true): a put only appends to RocksDB's user-space WAL buffer, and save_hard_state returns without flush_wal - after it returned Ok the new "
+              "term/vote exist only in process memory; kill -9 before the next flush_wal and the restart loads the previous vote (the node can vote twice in one term)", loc(b, bi))
